@@ -1624,10 +1624,10 @@ fn run(ctx: &mut Ctx) {
         write_witnesses(&dir);
     }
 
-    let n = ctx.n(6000, 400_000);
+    let n = ctx.n(6000, 100_000);
     ctx.max_shrink_iters = 150;
     ctx.run("faults", n, case_strategy, oracle);
-    let n = ctx.n(1500, 100_000);
+    let n = ctx.n(1500, 25_000);
     ctx.run("valid", n, valid_strategy, oracle);
     ctx.max_shrink_iters = 4000;
     embed_bytes(ctx);
